@@ -221,7 +221,9 @@ impl Ep {
     async fn bind_channel(&mut self) -> Result<(), String> {
         use rustrtc::transports::ice::{IceCandidate, IceParameters, IceRole};
         self.ice.set_role(IceRole::Controlling);
-        self.ice.add_remote_candidate(IceCandidate::host(PEER.parse().unwrap(), 1));
+        // the relay candidate of a TCP-connected TURN client is labelled "tcp"; pairs are formed per transport
+        let remote = if self.tcp { IceCandidate::tcp(PEER.parse().unwrap(), 1, "passive") } else { IceCandidate::host(PEER.parse().unwrap(), 1) };
+        self.ice.add_remote_candidate(remote);
         self.ice.start(IceParameters::new("peerufrag", "peerpassword0123456789ab")).map_err(|e| e.to_string())?;
         let Ep { task, server, channel, .. } = self;
         let mut replies: Vec<Vec<u8>> = Vec::new();
